@@ -146,6 +146,14 @@ func (ctx *Context) applyAtRecursively(pos int) int {
 		}
 	}
 
+	if len(ctx.stack) > 0 {
+		// The budget of nested actions is exhausted.  Drop the remaining
+		// actions, so that no state is carried over into the next call.
+		next = ctx.stack[0].EndPos
+		clear(ctx.stack)
+		ctx.stack = ctx.stack[:0]
+	}
+
 	return next
 }
 
